@@ -14,10 +14,12 @@ Driver for C08 (stateful). Input lines, fields separated by blanks:
   <desc> = push:<id>:<frag>:<paylen>:<expires ms>:<hex>   frag = - | <off>.<total>
          | update:<id>:<pending>:<expires>:<props>        props = - | k=v&k=v (sorted)
          | delete:<id> | sweep:<now ms> | reopen | query:<id> | junk:<id>~<frag>:<hex>
+         | replace:<id>:<frag>:<paylen>:<expires ms>:<hex>     Store.ReplaceBundle
+         | pushfail:…                                          Push while the part file cannot be written
   <dump> = st=<items> files=<files> pend=<ids> knows=<ids>     ("-" = empty, lists comma separated)
   item   = <id>/<pending>/<expires>/<fragmented>/<props>/<complete>/<load>/<part>+<part>…
   part   = <off>:<total>:<file label>:<hex of the re-serialised read-back | !>
-  file   = <id>~<frag>#<size>
+  file   = <id>~<frag>#<size>   (<id>~<frag>!tmp#<size> for the temporary file of replaceBundle)
 
 Verdicts: the Go dump is judged against the reference map (`specStep`, a plain association map) →
 `specfail <aspect>-after-<op kind>`; then compared with the model state (`step`, `crash`, the two
@@ -123,14 +125,18 @@ inductive DOp where
   | junk (n : Name) (d : Bytes)
   | pushFail (b : Bundle)      -- Push while the part file cannot be written
 
-def parsePush (s : String) : Option Bundle :=
+def parseBundle (kw : String) (s : String) : Option Bundle :=
   match s.splitOn ":" with
-  | ["push", i, f, pl, ex, h] => do some ⟨← parseId i, ← parseFrag f, ← pl.toNat?, ← ex.toNat?, ← parseHex h⟩
+  | [k, i, f, pl, ex, h] =>
+    if k == kw then do some ⟨← parseId i, ← parseFrag f, ← pl.toNat?, ← ex.toNat?, ← parseHex h⟩ else none
   | _ => none
+
+def parsePush (s : String) : Option Bundle := parseBundle "push" s
 
 def parseDesc (s : String) : Option DOp :=
   match s.splitOn ":" with
   | "push" :: _ => (parsePush s).map fun b => .cmd (.op (.push b))
+  | "replace" :: _ => (parseBundle "replace" s).map fun b => .cmd (.op (.replace b))
   | "pushfail" :: rest => (parsePush (":".intercalate ("push" :: rest))).map .pushFail
   | ["update", i, p, e, pr] => do
     some (.cmd (.op (.update (← parseId i) (p == "1") (← e.toNat?) (parseProps pr))))
@@ -140,7 +146,7 @@ def parseDesc (s : String) : Option DOp :=
   | ["query", i] => (parseId i).map .query
   | ["junk", n, h] =>
     match n.splitOn "~" with
-    | [i, f] => do some (.junk ⟨← parseId i, ← parseFrag f⟩ (← parseHex h))
+    | [i, f] => do some (.junk ⟨← parseId i, ← parseFrag f, false⟩ (← parseHex h))
     | _ => none
   | _ => none
 
@@ -148,6 +154,7 @@ def opKind : DOp → String
   | .cmd (.op (.push b)) => if b.frag.isSome then "push-fragment" else "push-bundle"
   | .cmd (.op (.update ..)) => "update"
   | .cmd (.op (.delete _)) => "delete"
+  | .cmd (.op (.replace _)) => "replace-bundle"
   | .cmd (.sweep _) => "sweep"
   | .cmd .reopen => "reopen"
   | .query _ => "query"
@@ -177,15 +184,14 @@ def insertSorted {α} (lt : α → α → Bool) (x : α) : List α → List α
 
 def sortBy {α} (lt : α → α → Bool) (l : List α) : List α := l.foldr (insertSorted lt) []
 
-def showName (n : Name) : String := s!"{showId n.id}~{showFrag n.frag}"
+def showName (n : Name) : String := s!"{showId n.id}~{showFrag n.frag}{if n.tmp then "!tmp" else ""}"
 
-/-- Harness's notion of a set on which `Load` is attempted: one total, offsets and ends strictly
-increasing in offset order. -/
+/-- Harness's notion of a set on which `Load` is attempted and `complete` is compared: one common
+total length (mixed totals are C10's subject). -/
 def cleanIvs (ivs : List (Nat × Nat × Nat)) : Bool :=   -- (off, len, total), sorted by off
   match ivs with
   | [] => true
-  | (_, _, t0) :: _ =>
-    ivs.all (fun iv => iv.2.2 == t0) && noContained (ivs.map fun iv => (iv.1, iv.2.1))
+  | (_, _, t0) :: _ => ivs.all (fun iv => iv.2.2 == t0)
 
 /-- Render the model state the way the harness renders the store. -/
 def modelDump (d : DState) (s : State) (sortParts : Bool) : GDump :=
@@ -241,7 +247,7 @@ def diffDump (d : DState) (s : State) (m g : GDump) : Option String :=
 
 /-! ### Spec: the Go dump against the reference map -/
 
-def partLt (a b : (Nat × Nat) × Option Bytes) : Bool :=
+def partLt (a b : (Nat × Nat) × Option (Nat × Bytes)) : Bool :=
   a.1.1 < b.1.1 || (a.1.1 == b.1.1 && a.1.2 < b.1.2)
 
 /-- First aspect in which the implementation's dump deviates from the reference map. -/
@@ -272,7 +278,7 @@ def judge (d : DState) (m : SMap) (g : GDump) : Option (String × String) :=
         let badBytes := (want.zip have_).find? fun (w, h) =>
           match w.2 with
           | none => false
-          | some bytes =>
+          | some (_, bytes) =>
             let expired := (d.table.find? (fun b => b.bytes == bytes)).any (fun b => b.expires < d.now)
             if expired then h.data != "!" && h.data != toHex bytes else h.data != toHex bytes
         match badBytes with
@@ -283,7 +289,7 @@ def judge (d : DState) (m : SMap) (g : GDump) : Option (String × String) :=
           else if it.props != showProps r.props then some ("properties", i)
           else
             -- completeness / load
-            let bs := want.filterMap fun w => w.2.bind fun bytes => d.table.find? (fun b => b.bytes == bytes)
+            let bs := want.filterMap fun w => w.2.bind fun c => d.table.find? (fun b => b.bytes == c.2)
             let anyExpired := bs.any (fun b => b.expires < d.now) || bs.length != want.length
             if anyExpired then none
             else if !r.fragmented then
@@ -312,6 +318,10 @@ def learn (d : DState) (bs : List Bundle) : DState :=
 
 def expectedRes (d : DState) : DOp → String
   | .cmd (.op (.update id ..)) => if (get id d.spec).isSome then "ok" else "notfound"
+  | .cmd (.op (.replace b)) =>
+    match get b.id d.spec with
+    | some r => if hasKey (fragKey b) r.parts then "ok" else "err"
+    | none => "err"
   | .query id => if (get id d.spec).isSome then "found" else "notfound"
   | .pushFail b => if specStep d.spec (.op (.push b)) == d.spec then "ok" else "err"
   | _ => "ok"
@@ -321,11 +331,12 @@ def handleOp (d : DState) (desc res : String) (dump : List String) : DState × S
   | some op, some g =>
     let d := match op with
       | .cmd (.op (.push b)) => learn d [b]
+      | .cmd (.op (.replace b)) => learn d [b]
       | .pushFail b => learn d [b]
       | _ => d
     let kind := opKind op
     let (model', spec') := match op with
-      | .cmd c => (step d.model c, specStep d.spec c)
+      | .cmd c => (step (mkParse d.now d.table) d.model c, specStep d.spec c)
       | .query _ => (d.model, d.spec)
       | .junk n bytes => ({ d.model with files := put n bytes d.model.files }, d.spec)
       | .pushFail _ => (d.model, d.spec)   -- not acknowledged (or ignored): nothing may change
@@ -343,7 +354,7 @@ def handleOp (d : DState) (desc res : String) (dump : List String) : DState × S
 
 /-- Number of micro-steps done when the child exits at the nth hit of a hook point. -/
 def crashSteps (point : String) (nth : Nat) : Option Nat :=
-  if point == "push:new:file-written" || point == "push:frag:file-written" then some 1
+  if point == "push:new:file-written" || point == "push:frag:file-written" || point == "replace:tmp-written" then some 1
   else if point == "delete:before-index" then some 0
   else if point == "delete:before-remove" then some nth
   else if point == "delete:file-removed" then some (nth + 1)
@@ -357,6 +368,7 @@ def handleCrash (d : DState) (pt desc exit : String) (dump : List String) : DSta
   | some (.cmd c), some g, some k =>
     let d := match c with
       | .op (.push b) => learn d [b]
+      | .op (.replace b) => learn d [b]
       | _ => d
     -- the primitive operation the child was killed in
     let prim : Option Op := match c with
@@ -369,7 +381,8 @@ def handleCrash (d : DState) (pt desc exit : String) (dump : List String) : DSta
     | none => (d, "skip crash-sweep-not-single")
     | some o =>
       let specAfter := specStep d.spec c
-      let modelAfter := if exit == "77" then crash k d.model o else step d.model c
+      let modelAfter :=
+        if exit == "77" then crash (mkParse d.now d.table) k d.model o else step (mkParse d.now d.table) d.model c
       let pick (spec : SMap) := { d with model := modelAfter, spec := spec }
       -- Spec: the surviving content is the one before or the one after the operation; a finished
       -- child (exit 0) acknowledged the operation: after.
@@ -395,8 +408,9 @@ def handleConc (d : DState) (p1 p2 parked blocked res : String) (dump : List Str
   | some b1, some b2, some g =>
     let d := learn d [b1, b2]
     let spec' := specStep (specStep d.spec (.op (.push b1))) (.op (.push b2))
-    let s12 := exec (exec d.model (.push b1)) (.push b2)
-    let s21 := exec (exec d.model (.push b2)) (.push b1)
+    let prs := mkParse d.now d.table
+    let s12 := exec prs (exec prs d.model (.push b1)) (.push b2)
+    let s21 := exec prs (exec prs d.model (.push b2)) (.push b1)
     let d' := { d with model := s12, spec := spec' }
     if res != "ok,ok" then (d', s!"specfail result-after-concurrent-push res={res}")
     else match judge d' spec' g with
@@ -420,7 +434,7 @@ def handleStress (d : DState) (pushes : List String) (res : String) (dump : List
   | some bs, some g =>
     let d := learn d bs
     let spec' := bs.foldl (fun m b => specStep m (.op (.push b))) d.spec
-    let model' := bs.foldl (fun s b => exec s (.push b)) d.model
+    let model' := bs.foldl (fun s b => exec (mkParse d.now d.table) s (.push b)) d.model
     let d' := { d with model := model', spec := spec' }
     if (res.splitOn ",").any (· != "ok") then (d', s!"specfail result-after-concurrent-push res={res}")
     else match judge d' spec' g with
